@@ -215,7 +215,7 @@ func TestC09(t *testing.T) {
 			r.exhaustive(fmt.Sprintf("stop mode n=%d c=%d failing item %d: all %d release orders of the non-failing items", sp[0], sp[1], sp[2], cnt))
 		}
 	}
-	rapidPart(r, "rand", r.pick(3000, 50000), genC09, checkC09)
+	rapidPart(r, "rand", r.pick(3000, 150000), genC09, checkC09)
 	// "in every mode each result slot is the real outcome or an error" also while a cancellation strikes
 	rapidPart(r, "rand-cancelled", r.pick(1500, 25000), genC11, checkC09)
 }
